@@ -31,7 +31,7 @@ def match_known(known, prop, violation, transformations=None):
     configuration transformation the run's generated configuration must carry (C20)."""
     text = json.dumps(violation.get("detail"), sort_keys=True)
     for k in known:
-        if k.get("status", "open") != "open" or k["property"] != prop:
+        if k.get("status", "open") != "open" or (k["property"] != prop and prop not in k.get("also_under", [])):
             continue
         sig = k["signature"]
         if "oracle" in sig and sig["oracle"] != violation["oracle"]:
